@@ -6,18 +6,21 @@ import itertools
 import sys
 
 from .. import cell, scen, world
-from ..explore import product
+from ..explore import faults, product
 
 PID = 'C14'
 LEVEL = 'exploration'
 TECHNIQUE = ('bounded-exhaustive enumeration (model checking of the implementation), differential: every trash content of the generator x DAYS x '
-             'flags is run with --dry-run and for real on identical worlds; every reply string of the alphabet is fed to the interactive guard')
+             'flags is run with --dry-run and for real on identical worlds; every reply string of the alphabet is fed to the interactive guard; '
+             'plus exhaustive single-fault injection (deviation bound 1) over the traces of the dry runs and of the refused questions')
 LEVEL_TEXT = ('dry-run: the after-snapshot must equal the before-snapshot and the set of existing paths announced as "would remove" must equal the set of paths the real '
-              'run removes on an identical world; interactive: for every reply not starting with y/Y (incl. empty and end of input) the snapshot must be unchanged')
+              'run removes on an identical world; interactive: for every reply not starting with y/Y (incl. empty and end of input) the snapshot must be unchanged; '
+              'the unchanged-snapshot clause is also checked when any single file-system call of a dry run or of a refused run fails')
 LEVEL_NOTE = ('trusted: snapshot comparer; the dry-run line for the payload path of an info-without-payload entry is pinned by the repository\'s own test and treated as don\'t-care')
 RULE = ('contents: multisets (<=2, thorough <=3) over {old, recent, undated, garbage-date, info-without-payload, tree payload, symlink payload} + orphan payload x DAYS {none,0,1} x '
         'flags {-, --trash-dir, -v, -vv, two volumes, --trash-dir LINK/../dir with a look-alike where a lexical collapse would point}; replies: all strings of length <=2 over {y,Y,n,N,e,s,space} + {"", EOF, yes, no, Yes, " y", nope, "yY", "\\ty"} x {-i, isatty=True} x DAYS {none, 1}, and 6 negative replies when only payloads without .trashinfo are left; '
-        'non-trivial = something was eligible for removal; distinct = (part, DAYS, flags or reply class, outcome)')
+        'non-trivial = something was eligible for removal; distinct = (part, DAYS, flags or reply class, outcome); fault stage: dry runs (contents <=1, thorough <=2; flags -, --trash-dir, -v) and '
+        'refused questions (replies n, "", EOF, " y") x every operation of the fault-free trace x every errno of that call, one fault per run')
 NOW = '2024-05-06T07:08:09'
 KINDS = ['old', 'recent', 'undated', 'garbage', 'nopayload', 'tree', 'link', 'dangling']
 FLAGS = ['-', 'trash-dir', '-v', '-vv', 'twovol', 'trash-dir-dotdot', 'readonly-dirs']
@@ -57,6 +60,23 @@ def cases(tier):
     for mode in ('-i', 'tty'):
         for rp in ('n', '', None, 'no', ' y', 'N'):
             out.append({'part': 'ask', 'reply': rp, 'mode': mode, 'days': None, 'ms': []})
+    return out
+
+
+def fault_stage(tier, cases_, outs):
+    """"changes nothing" has a verdict whatever the file system answers: for the selected dry runs and refused questions every
+    operation of the fault-free trace answers once with every errno it can return; only the unchanged-snapshot clause is judged"""
+    out = []
+    for c, o in zip(cases_, outs):
+        if not o.get('ops'):
+            continue
+        if c['part'] == 'dry':
+            if c['flags'] not in ('-', 'trash-dir', '-v') or len(c['ms']) > (2 if tier == 'thorough' else 1):
+                continue
+        elif c['reply'] not in ('n', '', None, ' y') or 'ms' in c:
+            continue
+        for f in faults.single_faults(o['ops']):
+            out.append(dict({k: v for k, v in c.items() if k != 'id'}, faults=[f]))
     return out
 
 
@@ -110,8 +130,11 @@ def run_dry(c):
     spec = W.spec()
     with cell.Sandbox(spec) as sb:
         before = sb.snapshot()
-        rd = sb.run(argv + ['--dry-run'], now=NOW, cwd='/')
+        flts = c.get('faults') or []
+        rd = sb.run(argv + ['--dry-run'], now=NOW, cwd='/', plan={'faults': flts} if flts else None)
         after_dry = sb.snapshot()
+        if flts:
+            return judge_faulted(c, rd, world.diff(before, after_dry, dir_mtime=True, info_mtime=True), 'dry-run-changed-state', flts, argv + ['--dry-run'])
         printed = [ln[len('would remove '):] for ln in rd.out.split('\n') if ln.startswith('would remove ')]
         canon = {p: d['entry'] for p, d in zip(printed, sb.denote(printed, cwd='/'))} if c['flags'] == 'trash-dir-dotdot' and printed else {}
     with cell.Sandbox(spec) as sb2:
@@ -146,7 +169,18 @@ def run_dry(c):
         what = 'dry-run-under-reports' if under else 'dry-run-over-reports'
         return {'verdict': 'viol', 'sig': 'C14|%s|days=%s|flags=%s' % (what, dcls, c['flags']), 'klass': what, 'nontrivial': nt,
                 'detail': dict(detail, under=under[:6], over=over[:6])}
-    return {'verdict': 'ok', 'klass': 'dry-run==real-run', 'nontrivial': bool(removed_top) and nt, 'execs': 2, 'detail': detail}
+    return {'verdict': 'ok', 'klass': 'dry-run==real-run', 'nontrivial': bool(removed_top) and nt, 'execs': 2, 'detail': detail, 'ops': faults.ops_of(rd.trace)}
+
+
+def judge_faulted(c, r, changed, what, flts, argv):
+    f = flts[0]
+    delivered = any(t[0] == f['at'] and t[4] == f['errno'] for t in r.trace)
+    detail = {'argv': argv, 'faults': flts, 'exit': r.exit, 'out': r.out[-300:], 'err': r.err[-300:], 'changed': changed[:8]}
+    dims = '%s|%s|%s:%s' % (c['part'], c.get('flags') or c.get('mode'), f['op'], f['errno'])
+    if changed:
+        return {'verdict': 'viol', 'sig': 'C14|%s|after-%s-%s' % (what, f['op'], f['errno']), 'klass': what + '-under-fault', 'nontrivial': delivered and dims,
+                'detail': detail, 'delivered': delivered}
+    return {'verdict': 'ok', 'klass': 'unchanged-under-fault', 'nontrivial': delivered and dims, 'detail': detail, 'delivered': delivered}
 
 
 def run_ask(c):
@@ -159,9 +193,14 @@ def run_ask(c):
     rp = c['reply']
     with cell.Sandbox(W.spec()) as sb:
         before = sb.snapshot()
+        flts = c.get('faults') or []
+        if flts:
+            plan['faults'] = flts
         r = sb.run(argv, now=NOW, cwd='/', stdin=None if rp is None else rp + '\n', plan=plan)
         after = sb.snapshot()
     yes = rp is not None and rp[:1] in ('y', 'Y')
+    if flts:
+        return judge_faulted(c, r, world.diff(before, after, dir_mtime=False, info_mtime=True), 'purged-without-consent', flts, argv)
     changed = world.diff(before, after, dir_mtime=False, info_mtime=True)
     rcls = 'EOF' if rp is None else ('empty' if rp == '' else ('yes' if yes else 'other'))
     detail = {'argv': argv, 'reply': rp, 'tty': c['mode'], 'exit': r.exit, 'out': r.out[-200:], 'err': r.err[-200:], 'changed': changed[:6]}
@@ -170,7 +209,7 @@ def run_ask(c):
         return {'verdict': 'viol', 'sig': 'C14|purged-without-consent|reply=%s' % rcls, 'klass': 'purged-without-consent', 'nontrivial': nt, 'detail': detail}
     if yes and not changed:
         return {'verdict': 'dontcare', 'klass': 'yes-but-nothing-removed', 'nontrivial': nt, 'detail': detail}
-    return {'verdict': 'ok', 'klass': 'consent-respected:' + rcls, 'nontrivial': nt, 'detail': detail}
+    return {'verdict': 'ok', 'klass': 'consent-respected:' + rcls, 'nontrivial': nt, 'detail': detail, 'ops': None if yes else faults.ops_of(r.trace)}
 
 
 def run_case(c):
